@@ -40,11 +40,27 @@ type uniqueErr struct{ n uint64 }
 
 func (e *uniqueErr) Error() string { return fmt.Sprintf("err#%d", e.n) }
 
+// doneContext returns a fresh context that is already cancelled (or whose deadline has passed): a mock has to
+// hand it on like any other value.
+func doneContext(n uint64, deadline bool) context.Context {
+	base := context.WithValue(context.Background(), ctxKey{n}, n)
+	if deadline {
+		c, cancel := context.WithDeadline(base, time.Unix(0, 0))
+		_ = cancel
+		return c
+	}
+	c, cancel := context.WithCancel(base)
+	cancel()
+	return c
+}
+
 // known implementers for common std interfaces (fresh allocation each time => distinguishable)
 func knownImpl(t reflect.Type, p *prng) (reflect.Value, bool) {
 	cands := []any{
 		&uniqueErr{p.next()},
 		context.WithValue(context.Background(), ctxKey{p.next()}, p.next()),
+		doneContext(p.next(), false),
+		doneContext(p.next(), true),
 		bytes.NewBufferString(fmt.Sprint(p.next())),
 		strings.NewReader(fmt.Sprint(p.next())),
 		time.Duration(p.next() >> 8),
